@@ -117,12 +117,6 @@ func c07Config(r *fw.Rec, v int, l qrref.Level, mask int, reps int) {
 	}
 }
 
-func trunc(s string, n int) string {
-	if len(s) > n {
-		return s[:n] + "…"
-	}
-	return s
-}
 
 func c07Tables(r *fw.Rec) {
 	for v := 1; v <= 40; v++ {
